@@ -132,7 +132,7 @@ fn gen_sep(rng: &mut Rng, comments: bool) -> Vec<u8> {
             return s;
         }
     }
-    let n = rng.usize(if s.is_empty() { 1 } else { 0 }, 4);
+    let n = if rng.chance(1, 40) { rng.usize(100, 5000) } else { rng.usize(if s.is_empty() { 1 } else { 0 }, 4) };
     for _ in 0..n {
         s.push(*rng.pick(&WS));
     }
@@ -225,7 +225,7 @@ fn gen_foreign(rng: &mut Rng) -> Foreign {
         pre_raster: if rng.chance(1, 2) { b'\n' } else { *rng.pick(&WS) },
         sample_seps,
         trailing: if rng.chance(1, 2) { String::new() } else { (0..rng.usize(1, 3)).map(|_| *rng.pick(&WS) as char).collect() },
-        zero_pad: if rng.chance(1, 8) { (0..rng.usize(1, 4)).map(|_| *rng.pick(&[0u8, 0, 2, 3, 4, 9, 10, 11, 12])).collect() } else { vec![] },
+        zero_pad: if rng.chance(1, 8) { (0..rng.usize(1, 4)).map(|_| *rng.pick(&[0u8, 0, 2, 3, 4, 9, 10, 11, 12, 16, 17, 21, 33, 64, 65])).collect() } else { vec![] },
     }
 }
 
@@ -287,7 +287,7 @@ pub fn gen_jumbo(seed: u64) -> (PnmScenario, &'static str, Option<String>) {
         1 => (rng.range(4097, 20_000) as u32, rng.range(2, 5) as u32),
         // many pixels: 2^18 .. 2^20 and a little beyond
         2 => (rng.range(500, 1100) as u32, rng.range(500, 1100) as u32),
-        _ => *rng.pick(&[(1025u32, 1024u32), (300, 300), (4096, 3), (8192, 2), (256, 256), (1024, 1024)]),
+        _ => *rng.pick(&[(1025u32, 1024u32), (300, 300), (4096, 3), (8192, 2), (256, 256), (1024, 1024), (2400, 2400)]),
     };
     let li = LibImage { bw, bh, pixels: Pix::Seeded(rng.u64()), view: if rng.chance(1, 2) { View::Ref } else { View::Slice(RectU { x: 0, y: 0, w: bw, h: bh }) } };
     let len = p6_len(bw, bh);
